@@ -559,32 +559,10 @@ func c15Panics(c *Ctx, scope []*ssa.Function, completeOK, suitesOK, versionOK bo
 				construct, what = fmt.Sprintf("explicit panic #%d", np), "an explicit panic is reachable in the handshake closure"
 			case *ssa.TypeAssert:
 				if x.CommaOk {
-					// `v, _ := x.(*T)` followed by a dereference of v: the ok flag is discarded, so a value of
-					// another dynamic type yields a nil pointer that is then dereferenced
-					var val, okv ssa.Value
-					for _, u := range *x.Referrers() {
-						if ex, isEx := u.(*ssa.Extract); isEx {
-							if ex.Index == 0 {
-								val = ex
-							} else {
-								okv = ex
-							}
-						}
-					}
-					okUsed := false
-					if okv != nil {
-						for _, u := range *okv.Referrers() {
-							if _, isDbg := u.(*ssa.DebugRef); !isDbg {
-								okUsed = true
-							}
-						}
-					}
-					if _, isPtr := x.AssertedType.Underlying().(*types.Pointer); isPtr && !okUsed && val != nil {
-						if bad := nilUnsafeUses(f, val); len(bad) > 0 {
-							na++
-							c.Evals++
-							c.Violated("B-PANIC", fname(f), fmt.Sprintf("unchecked type assertion #%d to %s is dereferenced", na, shortType(x.AssertedType)), "the ok result of the assertion is discarded and the value is dereferenced at "+c.P.pos(bad[0].Pos())+": a peer value of another dynamic type (e.g. a certificate with a different key type) makes this a nil dereference", x.Pos())
-						}
+					if bad := uncheckedAssertDeref(f, x); bad != nil {
+						na++
+						c.Evals++
+						c.Violated("B-PANIC", fname(f), fmt.Sprintf("unchecked type assertion #%d to %s is dereferenced", na, shortType(x.AssertedType)), "the ok result of the assertion is discarded and the value is dereferenced at "+c.P.pos(bad.Pos())+": a peer value of another dynamic type (e.g. a certificate with a different key type) makes this a nil dereference", x.Pos())
 					}
 					return
 				}
